@@ -373,10 +373,117 @@ pub fn run(args: &[String]) -> i32 {
     }
     if std::env::var_os("TSMC_SKIP_CLI").is_none() {
         cli::c07_cli_family(&mut rep);
+        e3_error_paths(&mut rep);
     }
     require_nonvacuous(&mut rep);
     rep.cov("rule", json!("a baseline program plus every single edge symbol (at every position it can occupy, × 6 languages × single/multi-file × 3 configurations), every unordered pair and (thorough) every unordered triple of symbols; each program is run through the real pipeline under catch_unwind: any unwind is a violation. Process level: the real binary under a watchdog on every symbol that fails in-process, on file-level faults and on every error-path schedule. non-trivial = at least one edge symbol present."));
     rep.assume("the edge alphabet is a fixed list (mc/src/props/c07.rs::SYMBOLS); arbitrary Rust is not enumerable");
     rep.assume("inputs syn rejects are outside 'files accepted by the Rust parser' but must still not crash; they are counted");
     rep.finish()
+}
+
+/// Error-path schedules: every maximal path of the protocol model with erroneous files, replayed on the real binary.
+pub fn e3_error_paths(rep: &mut Report) {
+    use crate::cli::par_map;
+    use crate::e3;
+    let thorough = rep.thorough();
+    let combos: Vec<(Vec<&str>, Vec<&str>)> = vec![
+        (vec!["fa", "fb"], vec!["fb"]),
+        (vec!["fa", "fb", "fc"], vec!["fb"]),
+        (vec!["fa", "fb", "fc"], vec!["fa", "fc"]),
+        (vec!["fa", "fb"], vec!["fa", "fb"]),
+    ];
+    let langs: Vec<Lang> = if thorough { ALL_LANGS.to_vec() } else { vec![Lang::TypeScript, Lang::Kotlin] };
+    struct Job {
+        files: Vec<(String, String)>,
+        schedule: Vec<String>,
+        events: Vec<String>,
+        first_err: Option<String>,
+        lang: Lang,
+        multi: bool,
+        n: usize,
+        errs: usize,
+    }
+    let mut jobs = Vec::new();
+    let mut states = 0;
+    let mut transitions = 0;
+    let mut paths_n = 0;
+    let mut summaries = Vec::new();
+    for (files, errs) in &combos {
+        match e3::tlc_graph(files, errs) {
+            Ok(g) => {
+                states += g.states;
+                transitions += g.transitions;
+                summaries.push(format!("{} files, {} erroneous: {}", files.len(), errs.len(), g.tlc_summary.trim()));
+                let (paths, capped) = e3::all_paths(&g, 200_000);
+                if capped {
+                    rep.machinery("path enumeration capped");
+                }
+                paths_n += paths.len();
+                for p in paths {
+                    for &lang in &langs {
+                        for multi in [false, true] {
+                            let mut schedule = e3::start_barrier(files);
+                            schedule.extend(p.events.iter().cloned());
+                            jobs.push(Job {
+                                files: files.iter().map(|f| (f.to_string(), if errs.contains(f) { e3::bad_source(f) } else { super::c06::source(f, lang) })).collect(),
+                                schedule,
+                                events: p.events.clone(),
+                                first_err: p.first_err.clone(),
+                                lang,
+                                multi,
+                                n: files.len(),
+                                errs: errs.len(),
+                            });
+                        }
+                    }
+                }
+            }
+            Err(e) => rep.machinery(format!("TLC: {e}")),
+        }
+    }
+    let results = par_map(&jobs, report::threads(), |j| e3::replay(&j.files, &j.schedule, j.lang, j.multi, j.n, &[]));
+    let mut conform = 0u64;
+    let mut classes: std::collections::BTreeMap<String, u64> = Default::default();
+    for (j, r) in jobs.iter().zip(results.iter()) {
+        *classes.entry(r.class.to_string()).or_insert(0) += 1;
+        let mode = if j.multi { "multi" } else { "single" };
+        let detail = |what: &str| json!({"schedule": r.schedule, "argv": r.argv, "exit_code": r.code, "stderr": r.stderr, "model_first_error": j.first_err, "observation": what, "lang": j.lang.name(), "mode": mode});
+        // position of the first send that happens after the collector has gone (the historically fatal ordering)
+        let late_send = {
+            let ce = j.events.iter().position(|e| e == "collector_exit");
+            ce.map(|c| j.events[c..].iter().any(|e| e.starts_with("send:"))).unwrap_or(false)
+        };
+        match r.class {
+            "schedule-infeasible" => rep.machinery(format!("schedule infeasible on the real binary: {} ({} {}): passed {:?}", r.schedule, j.lang.name(), mode, r.passed)),
+            "error" => {
+                let passed: Vec<&String> = r.passed.iter().filter(|l| !l.starts_with("start:")).collect();
+                if passed.len() == j.events.len() && passed.iter().zip(j.events.iter()).all(|(a, b)| *a == b) {
+                    conform += 1;
+                } else {
+                    rep.machinery(format!("conformance failure: model path {:?} replayed as {:?}", j.events, passed));
+                }
+                // the diagnostic must name the file the model says is reported
+                match &j.first_err {
+                    Some(f) => {
+                        if !r.stderr.contains(&format!("{f}.rs")) {
+                            rep.vios.add(Violation { sig: format!("C07|schedule|diagnostic-names-wrong-file|files={}|errs={}|mode={mode}", j.n, j.errs), detail: detail("stderr does not name the file whose error the collector received first") });
+                        }
+                    }
+                    None => rep.machinery(format!("model predicts success for a path with erroneous files: {:?}", j.events)),
+                }
+            }
+            other => {
+                rep.vios.add(Violation {
+                    sig: format!("C07|schedule|{other}|send_after_collector_exit={}|files={}|errs={}|mode={mode}", late_send as u8, j.n, j.errs),
+                    detail: detail("an error-path schedule must end in a non-zero exit with a diagnostic"),
+                });
+            }
+        }
+    }
+    rep.cov("error_path_schedules", json!({"model": crate::e3::MODEL, "tlc": summaries, "maximal_paths": paths_n, "replays": jobs.len(), "replays_with_matching_event_trace": conform, "outcome_classes": classes}));
+    rep.cov_add("evaluations", jobs.len() as u64);
+    rep.cov_add("traces_validated_against_impl", conform);
+    rep.cov("model_states", json!(states));
+    rep.cov("model_transitions", json!(transitions));
 }
